@@ -202,6 +202,76 @@ func runC03(c *fw.Ctx) {
 			guard(c, func() string { return text }, func() { c03Check(c, tree, text, i%64 == 0) })
 		}
 	})
+	// large flat documents: many records of a small repeated shape (counters that leak per element show up here)
+	c.Cases("large-flat", c.N(8, 60), true, func(i int, r0 *rng.R) {
+		if c.Arch386 && i%4 != 0 {
+			return
+		}
+		r := rng.New(c.Seed, "C03/large-flat", i)
+		n := []int{10001, 12000, 20011, 40000, 70000}[i%5]
+		shape := i % 8
+		var b strings.Builder
+		tree := &spec.Spec{K: spec.List}
+		b.WriteString("[")
+		for j := 0; j < n; j++ {
+			if j > 0 {
+				b.WriteString(",")
+				if r.Chance(1, 50) {
+					b.WriteString("\n")
+				}
+			}
+			var rec *spec.Spec
+			switch shape {
+			case 0:
+				rec = spec.ObjV("id", spec.IntV(j), "tags", spec.ListV(spec.StrV("x")))
+				fmt.Fprintf(&b, `{"id":%d,"tags":["x"]}`, j)
+			case 1:
+				rec = spec.ListV(spec.IntV(j), spec.ListV(), spec.ObjV())
+				fmt.Fprintf(&b, `[%d,[],{}]`, j)
+			case 2:
+				rec = spec.ObjV("o", spec.ObjV("l", spec.ListV(spec.ObjV("k", spec.NilV()))))
+				b.WriteString(`{"o":{"l":[{"k":null}]}}`)
+			case 3:
+				rec = spec.IntV(j)
+				fmt.Fprintf(&b, `%d`, j)
+			case 4:
+				rec = spec.StrV("s\n" + fmt.Sprint(j))
+				fmt.Fprintf(&b, `"s\n%d"`, j)
+			case 5:
+				rec = spec.ObjV("a", spec.ListV(spec.ListV(spec.IntV(1))), "b", spec.ListV(spec.BoolV(true)))
+				b.WriteString(`{"a":[[1]],"b":[true]}`)
+			case 6:
+				rec = spec.FloatV(float64(j) + 0.5)
+				fmt.Fprintf(&b, `%d.5`, j)
+			default:
+				rec = spec.ListV(spec.ObjV("k", spec.ListV(spec.ObjV())))
+				b.WriteString(`[{"k":[{}]}]`)
+			}
+			tree.L = append(tree.L, rec)
+		}
+		b.WriteString("]")
+		text := b.String()
+		if i%2 == 1 {
+			// the same records as the fields of one large object
+			ot := &spec.Spec{K: spec.Obj}
+			var ob strings.Builder
+			ob.WriteString("{")
+			for j, rec := range tree.L[:n/4] {
+				if j > 0 {
+					ob.WriteString(",")
+				}
+				k := fmt.Sprintf("k%d", j)
+				ot.Keys = append(ot.Keys, k)
+				ot.Vals = append(ot.Vals, rec)
+				fmt.Fprintf(&ob, "%q:%s", k, refjson.Render(rec))
+			}
+			ob.WriteString("}")
+			tree, text = ot, ob.String()
+		}
+		c.Add("large_flat_records", int64(tree.Len()))
+		c.Distinct(fmt.Sprintf("large-flat %d", i))
+		guard(c, func() string { return spec.Trunc(text, 300) }, func() { c03Check(c, tree, text, i < 2) })
+	})
 	// deep nesting
 	depths := []int{50, 200, 1000}
 	if !c.Quick() {
